@@ -93,7 +93,7 @@ func Build(repo, outDir, overlayDir string) (*Stats, error) {
 	}
 	// files added to the repo's packages through the overlay
 	err := filepath.Walk(overlayDir, func(p string, fi os.FileInfo, err error) error {
-		if err != nil || fi.IsDir() || !strings.HasSuffix(p, ".go") {
+		if err != nil || fi.IsDir() || !(strings.HasSuffix(p, ".go") || strings.HasSuffix(p, ".s")) {
 			return err
 		}
 		rel, _ := filepath.Rel(overlayDir, p)
